@@ -13,6 +13,8 @@ pub mod c11;
 pub mod c11_perm;
 pub mod c12;
 pub mod c13;
+pub mod c14;
+pub mod c15;
 pub mod c16;
 pub mod c18;
 pub mod c19;
@@ -85,6 +87,16 @@ pub fn lookup(id: &str) -> Option<Check> {
             id: "C13",
             level: "exploration",
             run: c13::run,
+        },
+        Check {
+            id: "C14",
+            level: "exploration",
+            run: c14::run,
+        },
+        Check {
+            id: "C15",
+            level: "fault_enumeration",
+            run: c15::run,
         },
         Check {
             id: "C16",
